@@ -94,44 +94,10 @@ func checkC15(w *World, r *Report) {
 		return found
 	}
 
+	_ = hasLoaderLoop
 	// ---- R15.1: the `template == nil` branch
 	n1 := 0
-	// the test may sit in Load itself or in the part that holds the loader loop
-	var nilRegion *ssa.BasicBlock
-	nilFn := load
-	for _, part := range partList {
-		for _, b := range part.Blocks {
-			v, trueIdx, ok := ifCond(b)
-			if !ok {
-				continue
-			}
-			bo, ok := v.(*ssa.BinOp)
-			if !ok || (bo.Op != token.EQL && bo.Op != token.NEQ) || !isNilConst(bo.Y) || !isNamed(bo.X.Type(), twigPath, "Template") {
-				continue
-			}
-			_, isPhi := bo.X.(*ssa.Phi)
-			fromPart := false
-			if ex, ok := bo.X.(*ssa.Extract); ok {
-				if c, ok := ex.Tuple.(*ssa.Call); ok {
-					if g := c.Call.StaticCallee(); g != nil && parts[g] && hasLoaderLoop(g) {
-						fromPart = true
-					}
-				}
-			}
-			if !isPhi && !fromPart {
-				continue // the cached-template tests compare a lookup result, not the loop's result
-			}
-			// prefer the test in the function that also holds the loader loop / calls it directly
-			if nilRegion != nil && part != load && !hasLoaderLoop(part) {
-				continue
-			}
-			nilFn = part
-			nilRegion = b.Succs[trueIdx]
-			if bo.Op == token.NEQ {
-				nilRegion = b.Succs[1-trueIdx]
-			}
-		}
-	}
+	nilFn, nilRegion := w.loadNilRegion()
 	if nilRegion == nil {
 		cannotDecide("R15.1: the `template == nil` test after the loader loop was not found in Engine.Load or its parts")
 	}
@@ -976,4 +942,94 @@ func originFieldStrict(v ssa.Value, depth int) (string, string) {
 		return fieldOfAddr(x)
 	}
 	return "", ""
+}
+
+// freshTemplateEdge: some edge of the phi (transitively) carries a template made in this call —
+// an allocation or the result of a call — rather than nil or a value read from the cache map.
+func freshTemplateEdge(v ssa.Value, seen map[ssa.Value]bool) bool {
+	if seen[v] {
+		return false
+	}
+	seen[v] = true
+	switch x := v.(type) {
+	case *ssa.Phi:
+		for _, e := range x.Edges {
+			if freshTemplateEdge(e, seen) {
+				return true
+			}
+		}
+		return false
+	case *ssa.Alloc, *ssa.Call:
+		return true
+	case *ssa.Extract:
+		_, isLookup := x.Tuple.(*ssa.Lookup)
+		return !isLookup
+	case *ssa.UnOp:
+		if u := unspill(x); u != ssa.Value(x) {
+			return freshTemplateEdge(u, seen)
+		}
+	}
+	return false
+}
+
+// loadNilRegion: the function (Engine.Load or one of its parts) and the block where control
+// arrives when the walk over the loaders produced no template (`template == nil`).
+func (w *World) loadNilRegion() (*ssa.Function, *ssa.BasicBlock) {
+	load := w.ssaFunc(w.method("Engine", "Load"))
+	parts := w.loadPartsSet()
+	var partList []*ssa.Function
+	for _, fn := range w.pkgFuncs() {
+		if parts[fn] {
+			partList = append(partList, fn)
+		}
+	}
+	hasLoaderLoop := func(g *ssa.Function) bool {
+		found := false
+		instrsOf(g, func(in ssa.Instruction) {
+			if c, ok := in.(ssa.CallInstruction); ok && c.Common().IsInvoke() && c.Common().Method.Name() == "Load" && isNamed(c.Common().Value.Type(), twigPath, "Loader") {
+				found = true
+			}
+		})
+		return found
+	}
+	// the test may sit in Load itself or in the part that holds the loader loop
+	var nilRegion *ssa.BasicBlock
+	nilFn := load
+	for _, part := range partList {
+		for _, b := range part.Blocks {
+			v, trueIdx, ok := ifCond(b)
+			if !ok {
+				continue
+			}
+			bo, ok := v.(*ssa.BinOp)
+			if !ok || (bo.Op != token.EQL && bo.Op != token.NEQ) || !isNilConst(bo.Y) || !isNamed(bo.X.Type(), twigPath, "Template") {
+				continue
+			}
+			_, isPhi := bo.X.(*ssa.Phi)
+			if isPhi && !freshTemplateEdge(bo.X, map[ssa.Value]bool{}) {
+				isPhi = false // a variable that only ever holds nil or a cached template ("previous")
+			}
+			fromPart := false
+			if ex, ok := bo.X.(*ssa.Extract); ok {
+				if c, ok := ex.Tuple.(*ssa.Call); ok {
+					if g := c.Call.StaticCallee(); g != nil && parts[g] && hasLoaderLoop(g) {
+						fromPart = true
+					}
+				}
+			}
+			if !isPhi && !fromPart {
+				continue // the cached-template tests compare a lookup result, not the loop's result
+			}
+			// prefer the test in the function that also holds the loader loop / calls it directly
+			if nilRegion != nil && part != load && !hasLoaderLoop(part) {
+				continue
+			}
+			nilFn = part
+			nilRegion = b.Succs[trueIdx]
+			if bo.Op == token.NEQ {
+				nilRegion = b.Succs[1-trueIdx]
+			}
+		}
+	}
+	return nilFn, nilRegion
 }
